@@ -472,7 +472,7 @@ def replay_histories(ctx, histfile, subcmd, module="Trace", chunks=NCPU, limit=N
         os.makedirs(rdir, exist_ok=True)
         path = os.path.join(rdir, hashlib.sha1(hist.encode()).hexdigest()[:16] + ".hist.json")
         with open(path, "w") as fo:
-            json.dump({"history": hist, "subcmd": subcmd, "module": module}, fo)
+            json.dump({"history": hist, "subcmd": subcmd, "module": module, "rejected_events": getattr(ctx, "last_rejected", [])}, fo)
         ctx.violations.append((",".join(cl), path))
         log("VIOLATION property=%s replay=%s clause=%s" % (ctx.prop, path, ",".join(cl)))
     if unreproduced and len(ctx.violations) == nviol0 and not ctx.known:
@@ -493,6 +493,15 @@ def replay_one_history(ctx, hist, subcmd, module="Trace"):
         for c in res["fails"].get(i, ["?"]):
             if c not in cl:
                 cl.append(c)
+    # what the rejected events of this history recorded (kept in the replay file for the reader)
+    ctx.last_rejected = []
+    if res["rejected"]:
+        evs = [json.loads(l) for l in open(tf)]
+        for i in res["rejected"][:3]:
+            ev = evs[i - 1]
+            if "calls" in ev:
+                ev = dict(ev, calls=[c for c in ev["calls"] if not c.get("same") or c.get("out") != "ok"][:20])
+            ctx.last_rejected.append(ev)
     return (not res["rejected"]), cl
 
 
